@@ -5,6 +5,8 @@ import SignaloModel.Proofs.ClassifyProofs
 
 Property theorems for C08 (statements are printed by `#check`, axioms by `#check @Registry.schmitt_registry
 #check @Registry.debounce_registry
+#check @Registry.threshold_registry
+#check @Registry.schmitt_registry_correct
 #print axioms`;
 `bin/check C08` re-elaborates this file on every run and audits the axiom lists).
 -/
@@ -21,3 +23,5 @@ open SignaloModel
 #print axioms Classify.runLenFrom_spec
 #print axioms Registry.schmitt_registry
 #print axioms Registry.debounce_registry
+#print axioms Registry.threshold_registry
+#print axioms Registry.schmitt_registry_correct
